@@ -158,6 +158,39 @@ def d7(ctx, rep):
                 rep.ok('D7.calib', fn, fn.node.name, f'no tau cell of {len(cuts) - 1} in (0.001, 0.999) refutes tau(theta(tau)) = tau; theta admissible on {proved_dom} path results',
                        construct=f'{cls.name}.compute_theta: inverts {formula}')
     rep.floor('D7.calib', 'closed-form calibrations', n, 2)
+    # Frank: the calibration is a numeric solve (not evaluated), but a closed-form *shortcut* on some path is.  For |theta| <= 1.5 the
+    # family's Kendall tau has the alternating series theta/9 - theta^3/900 + ..., so theta/9 - theta^3/900 <= tau(theta) <= theta/9
+    # for theta >= 0 (mirrored for theta < 0): an enclosure precise enough to refute a wrong small-tau approximation.
+    fr_cls = prog.cls('copulas.bivariate.frank.Frank')
+    fr_fn = fr_cls.lookup('compute_theta')
+    if fr_fn is not None:
+        from ..ivkind import mul, sub as isub, div as idiv, power
+        edges = [1e-3 * 1.15 ** k for k in range(36)]   # 0.001 .. 0.13
+        refuted = None
+        closed = 0
+        for sign in (1.0, -1.0):
+            for a, b in zip(edges, edges[1:]):
+                box = IV(a, b) if sign > 0 else IV(-b, -a)
+                alts, _ik = evaluate_attrs(ctx, fr_cls, 'compute_theta', {'tau': box})
+                for th, definite in alts:
+                    if not isinstance(th, IV) or th.nan or not definite:
+                        continue
+                    closed += 1
+                    if max(abs(th.lo), abs(th.hi)) > 1.5:
+                        continue
+                    lo_t, hi_t = (th.lo, th.hi)
+                    f_hi = lambda t: t / 9.0 if t >= 0 else t / 9.0 - t ** 3 / 900.0
+                    f_lo = lambda t: t / 9.0 - t ** 3 / 900.0 if t >= 0 else t / 9.0
+                    back = IV(min(f_lo(lo_t), f_lo(hi_t)), max(f_hi(lo_t), f_hi(hi_t)))
+                    if back.lo > box.hi + 1e-9 or back.hi < box.lo - 1e-9:
+                        refuted = refuted or (box, th, back)
+        cons = 'Frank.compute_theta: closed-form shortcut inverts the Debye relation'
+        if refuted:
+            box, th, back = refuted
+            rep.bad('D7.calib', fr_fn, fr_fn.node.name, f'for tau in {box} compute_theta returns theta in {th} on a closed-form path; the Frank Kendall tau of that theta lies in {back} '
+                    '(series theta/9 - theta^3/900 + ...): the shortcut does not invert the family\'s tau map', construct=cons)
+        elif closed:
+            rep.undecided('D7.calib', fr_fn, fr_fn.node.name, f'{closed} closed-form results for small tau evaluated, none refuted (the solver path is numeric and not evaluated)', construct=cons)
     # negative tau: Clayton and Gumbel cannot model it; compute_theta must raise or return an inadmissible theta, so that
     # check_theta (which post-dominates the store, D3) refuses - a value silently mapped into the admissible set is accepted
     neg = [(-0.999 + 0.998 * i / 20, -0.999 + 0.998 * (i + 1) / 20) for i in range(20)]
